@@ -70,9 +70,9 @@ PLANS = {
                  witnesses=_HT_W, min_outcomes=6),
             _job('htable_dict', 'htable_dict', 3, quick={'active': 3, 'background': 22}, thorough={'active': 5, 'background': 22},
                  witnesses=_HT_W, min_outcomes=6),
-            _job('htable_vpvp', 'htable_vpvp', 3, quick={'active': 4, 'background': 22}, thorough={'active': 7, 'background': 22},
+            _job('htable_vpvp', 'htable_vpvp', 3, quick={'active': 4, 'background': 22}, thorough={'active': 6, 'background': 22},
                  witnesses=_HT_W, min_outcomes=6),
-            _job('htable_vpstr', 'htable_vpstr', 3, quick={'active': 4, 'background': 22}, thorough={'active': 7, 'background': 22},
+            _job('htable_vpstr', 'htable_vpstr', 3, quick={'active': 4, 'background': 22}, thorough={'active': 6, 'background': 22},
                  witnesses=_HT_W, min_outcomes=6),
             _job('llist', 'llist', 1, quick={'n': 6}, thorough={'n': 12},
                  witnesses=['moved_between_lists', 'moved_middle_between_nonempty_lists', 'replaced_value', 'destructor_replaced'],
